@@ -8,6 +8,7 @@ import SqlLineage.IO.Config
 import SqlLineage.IO.Graph
 import SqlLineage.IO.Sql
 import SqlLineage.IO.PathSec
+import SqlLineage.IO.Qualify
 import SqlLineage.IO.Shape
 import SqlLineage.IO.Export
 import SqlLineage.IO.Rename
@@ -36,6 +37,8 @@ def handlers : List (String × (Json → Except String Json)) := [
   ("path", SqlLineage.IO.PathSec.handleOne),
   ("pathbatch", SqlLineage.IO.PathSec.handleBatch),
   ("pathlib", SqlLineage.IO.PathSec.handlePathlib),
+  ("sqlfx", SqlLineage.IO.Qualify.handleSqlFixed),
+  ("qualify", SqlLineage.IO.Qualify.handleQualify),
   ("exportsql", SqlLineage.IO.Export.handleExportSql),
   ("exportgraph", SqlLineage.IO.Export.handleExportGraph),
   ("exportfull", SqlLineage.IO.Export.handleExportFull),
